@@ -11,6 +11,7 @@ import J1939.Model.Dll22
 import J1939.Model.Listener
 import J1939.DriverDm14
 import J1939.Model.Pre21
+import J1939.Model.Pre22
 namespace J1939.Driver
 open J1939 J1939.Gen
 
@@ -350,6 +351,15 @@ def step (st : St) (line : String) : St × List String :=
         let r := Dll22.notify e.cfg e.st st.now (fun d => e.acc.contains d) cid data
         ({ e with st := r.st }, resLines22 r)
     | _, _, _ => (st, ["bad-args"])
+  | ["d22.tickpre", i, k, cid, data] =>
+    match i.toNat?, k.toNat?, cid.toNat?, parseList data with
+    | some i, some k, some cid, some data => withD22 st i fun e =>
+        let r := Pre22.tickPre e.cfg (fun d => e.acc.contains d) e.st st.now k (cid, data)
+        ({ e with st := r.st },
+         r.outsBefore.map showOut22 ++ r.rxOuts.map showOut22 ++ (match r.rxErr with | some x => [s!"rxexc {x.name}"] | none => []) ++
+         r.outsAfter.map showOut22 ++
+         (match r.err with | some x => [s!"exc {x.name}"] | none => [s!"wakeup {(r.wakeup : Int) - st.now}"]))
+    | _, _, _, _ => (st, ["bad-args"])
   | ["d22.tick", i] =>
     match i.toNat? with
     | some i => withD22 st i fun e =>
